@@ -598,9 +598,13 @@ func runDist(rc *RunCtx, prop string) {
 					report := func(sig, what string) {
 						rc.Violate(&explore.Violation{Property: prop, Sig: prop + ":" + sig, What: cfg.String() + ": " + what, Path: append([]string{}, hist...), Detail: map[string]interface{}{"config": cfg, "config_str": cfg.String()}})
 					}
-					if prop == "C03" {
+					switch prop {
+					case "C03":
 						c03Oracle(w, c, k, report)
-					} else {
+					case "C18":
+						mm.Block()
+						c18DistEvents(c.EventManager().ABCIEvents(), mm, report)
+					default:
 						mm.Block()
 						c04Oracle(w, c, k, cfg, mm, false, report)
 					}
